@@ -420,6 +420,7 @@ Proof.
   - rewrite Hst, Htape. exact (i_tape _ _ _ I).
   - intros e en Hn Hf. rewrite Hst, Hents in Hn. rewrite Hst, Hcs. apply (i_csc _ _ _ I e en Hn Hf).
   - intros x Hm. rewrite Hst, Hcs in Hm. rewrite Hst, Hents. apply (i_csb _ _ _ I x Hm).
+  - intros e en Hn Hm. rewrite Hst, Hents in Hn. rewrite Hst, Hcs in Hm. apply (i_cse _ _ _ I e en Hn Hm).
   - rewrite Hst, Hlast. pose proof (i_clk _ _ _ I). lia.
   - intros e en Hn. rewrite Hst, Hents in Hn. destruct (i_clke _ _ _ I e en Hn) as (A & B). rewrite Hst.
     split; [lia|]. intros sd. specialize (B sd). change (getx w' e sd) with (getx w e sd). lia.
@@ -431,6 +432,7 @@ Proof.
   - intros sd k Hk Hlt Hg. rewrite Hp in Hlt. rewrite Hst, Hents. apply (i_cove _ _ _ I sd k Hk Hlt Hg).
   - intros sd k cs Hg. rewrite Hobj. apply (i_ghost _ _ _ I sd k cs Hg).
   - intros e sd Hl. rewrite Hst, Hents in Hl. change (getx w' e sd) with (getx w e sd). apply (i_xlen _ _ _ I e sd Hl).
+  - intros e en sd He Hn. rewrite Hst, Hents in Hn. unfold Seen. change (getx w' e sd) with (getx w e sd). apply (i_seen _ _ _ I e en sd He Hn).
 Qed.
 
 Lemma Inv_st g w s' :
@@ -466,12 +468,12 @@ Proof.
   - destruct (get_latest w e false [false; true]) as [w1|c] eqn:Eg; [|discriminate]. cbn [rbind] in H. injection H as <- <-.
     assert (Hnd: forall en0, nth_error (ents (w_st w)) e = Some en0 -> is_discarded (e_ign en0) = false).
     { intros en0 H0. assert (en0 = en) by congruence. subst en0. rewrite Hi. reflexivity. }
-    destruct (get_latest_both (real_evl w) g w e w1 I He Hnd Eg) as (I1 & R1 & R2 & Hp & Hgx & (en0 & en1 & Hn0 & Hn1 & Hi1 & Hm1) & Hnow).
+    destruct (get_latest_both (real_evl w) g w e w1 I He Hnd Eg) as (I1 & R1 & R2 & Hp & Hgx & (en0 & en1 & Hn0 & Hn1 & Hi1 & Hm1) & Hnow & Hshp).
     destruct (get_latest_pres (real_evl w) g w e false _ w1 I He Eg) as (_ & _ & _ & _ & Htf & _).
     assert (en0 = en) by congruence. subst en0.
     split; [exact Hgx|]. split; [intros sd; rewrite Htf; apply Htmp|]. split; [exact Hp|].
     exists en1. split; [|split; [congruence|lia]].
-    constructor; [|exact He|exact Hn1|].
+    constructor; [|exact He|exact Hn1| |intros sd0; apply (Hshp en1 sd0 Hn1)].
     + unfold Inv. apply (InvP_ext (real_evl w)); [intros sd; unfold real_evl; rewrite Hp; reflexivity|exact I1].
     + intros sd0 k ob Ho Hob.
       assert (Hpd: pd (real_evl w1) sd0 k = pd (real_evl w) sd0 k) by (unfold pd, real_evl; rewrite Hp; reflexivity).
@@ -481,12 +483,14 @@ Proof.
     destruct (AlgoModel.finished w e false) as [wa|c] eqn:Efa; [|discriminate]. cbn [rbind] in H.
     destruct (AlgoModel.finished wa e true) as [wb|c] eqn:Efb; [|discriminate]. cbn [rbind] in H. injection H as <- <-.
     assert (Hd: is_discarded (e_ign en) = true) by (rewrite Hi; reflexivity).
-    destruct (finished_pres0 g w e en false wa I He Hn) with (3 := Efa) as (Ia & Hgxa & Hta & Hpa & ena & Hna & Sa).
+    destruct (finished_pres0 g w e en false wa I He Hn) with (4 := Efa) as (Ia & Hgxa & Hta & Hpa & ena & Hna & Sa).
+    { intros X. rewrite Hd in X. discriminate. }
     { intros X. rewrite Hd in X. discriminate. }
     { intros k ob cs _ _ _ _ X. rewrite Hd in X. discriminate. }
     assert (Hda: is_discarded (e_ign ena) = true).
     { destruct Sa as (_ & _ & S3). unfold clr in S3. rewrite ign_ss in S3. rewrite <- S3. exact Hd. }
-    destruct (finished_pres0 g wa e ena true wb Ia He Hna) with (3 := Efb) as (Ib & Hgxb & Htb & Hpb & enb & Hnb & Sb).
+    destruct (finished_pres0 g wa e ena true wb Ia He Hna) with (4 := Efb) as (Ib & Hgxb & Htb & Hpb & enb & Hnb & Sb).
+    { intros X. rewrite Hda in X. discriminate. }
     { intros X. rewrite Hda in X. discriminate. }
     { intros k ob cs _ _ _ _ X. rewrite Hda in X. discriminate. }
     split; [intros x sd0 Hne; rewrite Hgxb by exact Hne; apply Hgxa; exact Hne|]. split; [exact Htb|].
@@ -505,30 +509,32 @@ Proof.
 Qed.
 
 Lemma fill_one_pres g w e sd w' : Inv g w -> (2 <= e)%nat -> fill_one w e sd = ROk w' ->
-  Inv g w' /\ (forall x sd0, x_tfile (getx w' x sd0) = x_tfile (getx w x sd0)) /\ (forall sd0, prov_of w' sd0 = prov_of w sd0).
+  Inv g w' /\ (forall x sd0, x_tfile (getx w' x sd0) = x_tfile (getx w x sd0)) /\ (forall sd0, prov_of w' sd0 = prov_of w sd0) /\
+  (forall x, set_mem x (cset (w_st w)) = true -> set_mem x (cset (w_st w')) = true).
 Proof.
   intros I He H. unfold fill_one in H. unfold get_e, lift, get_ent in H.
   destruct (nth_error (ents (w_st w)) e) as [en|]; [|discriminate]. cbn [rbind] in H.
   match type of H with (if ?B then _ else _) = _ => destruct B end.
-  - destruct (get_latest_pres (real_evl w) g w e false [sd] w' I He H) as (I1 & Hp & Hgx & _ & Htf & _).
+  - destruct (get_latest_pres (real_evl w) g w e false [sd] w' I He H) as (I1 & Hp & Hgx & _ & Htf & _ & Hmono).
     split.
     + unfold Inv. apply (InvP_ext (real_evl w)); [intros sd0; unfold real_evl; rewrite Hp; reflexivity|exact I1].
-    + split; [|exact Hp]. intros x sd0. destruct (Nat.eq_dec x e) as [->|Hne]; [apply Htf|rewrite Hgx by exact Hne; reflexivity].
+    + split; [|split; [exact Hp|exact Hmono]]. intros x sd0. destruct (Nat.eq_dec x e) as [->|Hne]; [apply Htf|rewrite Hgx by exact Hne; reflexivity].
   - injection H as <-. auto.
 Qed.
 
 Lemma fill_paths_pres g : forall order w w', Inv g w -> Forall (fun e => (2 <= e)%nat) order -> fill_paths w order = ROk w' ->
-  Inv g w' /\ (forall x sd0, x_tfile (getx w' x sd0) = x_tfile (getx w x sd0)) /\ (forall sd0, prov_of w' sd0 = prov_of w sd0).
+  Inv g w' /\ (forall x sd0, x_tfile (getx w' x sd0) = x_tfile (getx w x sd0)) /\ (forall sd0, prov_of w' sd0 = prov_of w sd0) /\
+  (forall x, set_mem x (cset (w_st w)) = true -> set_mem x (cset (w_st w')) = true).
 Proof.
   induction order as [|e r IH]; intros w w' I Hall H.
   - simpl in H. injection H as <-. auto.
   - simpl in H. inversion Hall as [|? ? He Hr]; subst.
     destruct (fill_one w e false) as [w1|c] eqn:E1; [|discriminate]. cbn [rbind] in H.
     destruct (fill_one w1 e true) as [w2|c] eqn:E2; [|discriminate]. cbn [rbind] in H.
-    destruct (fill_one_pres g w e false w1 I He E1) as (I1 & T1 & P1).
-    destruct (fill_one_pres g w1 e true w2 I1 He E2) as (I2 & T2 & P2).
-    destruct (IH w2 w' I2 Hr H) as (I3 & T3 & P3). split; [exact I3|]. split; [intros x sd0; rewrite T3, T2, T1; reflexivity|].
-    intros sd0. rewrite P3, P2, P1. reflexivity.
+    destruct (fill_one_pres g w e false w1 I He E1) as (I1 & T1 & P1 & M1).
+    destruct (fill_one_pres g w1 e true w2 I1 He E2) as (I2 & T2 & P2 & M2).
+    destruct (IH w2 w' I2 Hr H) as (I3 & T3 & P3 & M3). split; [exact I3|]. split; [intros x sd0; rewrite T3, T2, T1; reflexivity|].
+    split; [intros sd0; rewrite P3, P2, P1; reflexivity|]. intros x Hm. apply M3, M2, M1. exact Hm.
 Qed.
 
 (* ------------------------------------------------------------------ SyncManager.do: one sync step *)
@@ -550,7 +556,7 @@ Proof.
     destruct (i_roots _ _ _ I) as (e0 & e1 & _ & _ & _ & _ & _ & _ & _ & _ & _ & _ & _ & _ & _ & M0 & M1).
     destruct x as [|[|x]]; [congruence|congruence|lia]. }
   destruct (fill_paths w ord) as [w1|c] eqn:Ef; [|discriminate]. cbn [rbind] in H.
-  destruct (fill_paths_pres g ord w w1 I Hord Ef) as (I1 & T1 & P1).
+  destruct (fill_paths_pres g ord w w1 I Hord Ef) as (I1 & T1 & P1 & _).
   assert (O2: OwnFrame g w (fst (tick w1))).
   { apply OwnFrame_prov. intros sd. unfold tick. cbn [fst]. rewrite prov_of_with_st. apply P1. }
   assert (Htick: tick w1 = (fst (tick w1), now (w_st w1) + 1000)) by reflexivity.
